@@ -609,7 +609,9 @@ retry_after_fb:
 
     // callback range, from last_key to range_end.
     // if last_key = range_end_key and range_end_ep = INCLUSIVE, callback range is empty
-    if (!(eep == scan_endpoint::INCLUSIVE && last_key == ekt)) { // NOLINT(*-simplify-boolean-expr)
+    // (ekt is the end tuple only while cmp_to_end == 0; otherwise it is the max / min sentinel,
+    // which equals the tuple of a real entry: a link with slice FF..FF / the empty key)
+    if (!(cmp_to_end == 0 && eep == scan_endpoint::INCLUSIVE && last_key == ekt)) { // NOLINT(*-simplify-boolean-expr)
         if (bnv_cb(bn->get_version_ptr(), v_at_fb)) {
             return status::WARN_ABORTED_BY_USER;
         }
